@@ -1400,6 +1400,22 @@ func (g *gen) libraryBuilt() {
 		})
 		c.Check(!p, "no panic", "panic:messages.NewASReqForTGT", "", nil)
 		p, _ = hctx.Guard(func() {
+			// user-to-user: the verifier's TGT travels as an additional ticket (cleartext part only here)
+			tgt := messages.Ticket{TktVNO: 5, Realm: "TEST.GOKRB5", SName: types.PrincipalName{NameType: 2, NameString: []string{"krbtgt", "TEST.GOKRB5"}},
+				EncPart: types.EncryptedData{EType: 18, KVNO: 1, Cipher: []byte{1, 2, 3, 4, 5, 6, 7, 8, 9, 10, 11, 12, 13, 14, 15, 16, 17, 18, 19, 20, 21, 22, 23, 24, 25, 26, 27, 28, 29, 30}}}
+			key := types.EncryptionKey{KeyType: 18, KeyValue: make([]byte, 32)}
+			r, err := messages.NewUser2UserTGSReq(cname, "TEST.GOKRB5", cfg, tgt, key, types.PrincipalName{NameType: 1, NameString: []string{"peer"}}, false, tgt)
+			if err == nil {
+				var b []byte
+				b, err = r.Marshal()
+				check("messages.NewUser2UserTGSReq", b, err)
+				c.Check(len(r.ReqBody.AdditionalTickets) == 1 && types.IsFlagSet(&r.ReqBody.KDCOptions, 28), "a user-to-user request carries the verifier's ticket and the enc-tkt-in-skey option", "u2u-request-shape", "", nil)
+			} else {
+				check("messages.NewUser2UserTGSReq", nil, err)
+			}
+		})
+		c.Check(!p, "no panic", "panic:messages.NewUser2UserTGSReq", "", nil)
+		p, _ = hctx.Guard(func() {
 			e := messages.NewKRBError(cname, "TEST.GOKRB5", 6, "text")
 			b, err := e.Marshal()
 			check("messages.NewKRBError", b, err)
